@@ -929,6 +929,7 @@ func genCrudPlan(r *rand.Rand, quick bool) *plan.Plan {
 	}
 	p := &plan.Plan{Knobs: k, Params: map[string]any{"part": "crud"}}
 	orgs := [][]int64{{0}, {0, 7}, {0, 7, 12}}[r.IntN(3)]
+	p.Knobs.Orgs = append([]int64(nil), orgs...)
 	// swarm: a subset of the stores per run
 	var stores []string
 	for _, s := range allCrudStores {
